@@ -421,6 +421,8 @@ func c19ExactMatch(c *Ctx) {
 	for _, p := range fn.Params {
 		params[p.Name()] = p
 	}
+	// the search may live in a helper of the package that GetPrevDecl hands its two names to (`d := r.findMethod(structname, methodname)`)
+	fn, params = prevDeclFinder(fn, params)
 	n := 0
 	for _, r := range an.Returns(fn) {
 		nonNil := false
@@ -697,4 +699,32 @@ func c19ObjResolution(c *Ctx) {
 	if n == 0 {
 		c.R.Note("parser-mode", "-", "no generator package both reads Ident.Obj and calls go/parser; nothing to judge")
 	}
+}
+
+// prevDeclFinder: GetPrevDecl itself when it contains the search loop; otherwise the same-package function it passes both of
+// its name parameters to, with the parameter map translated to that function's parameters.
+func prevDeclFinder(fn *ssa.Function, params map[string]ssa.Value) (*ssa.Function, map[string]ssa.Value) {
+	if len(an.Loops(fn)) > 0 {
+		return fn, params
+	}
+	for _, call := range an.CallsIn(fn, func(_ ssa.CallInstruction, ci an.CalleeInfo) bool {
+		return ci.Static != nil && ci.Static.Pkg == fn.Pkg && len(ci.Static.Blocks) > 0 && len(an.Loops(ci.Static)) > 0
+	}) {
+		if call.Parent() != fn {
+			continue
+		}
+		h := call.Common().StaticCallee()
+		m := map[string]ssa.Value{}
+		for name, p := range params {
+			for j, a := range call.Common().Args {
+				if a == p && j < len(h.Params) {
+					m[name] = h.Params[j]
+				}
+			}
+		}
+		if len(m) == len(params)-1 || len(m) == len(params) { // the receiver need not be passed on as such
+			return h, m
+		}
+	}
+	return fn, params
 }
